@@ -407,7 +407,7 @@ impl Prop for C18 {
             // affinity scenario
             let v6 = r.chance(1, 3);
             // address pools include values that look like ethertypes when they sit at bytes 12..13 of a raw packet
-            let c = if v6 { Endpoint::v6(1 + r.below(200) as u16, 1024 + r.below(60000) as u16) } else { Endpoint::v4(*r.pick(&[10u8, 192, 172, 100]), r.u8(), r.u8(), 1 + r.below(250) as u8, 1024 + r.below(60000) as u16) };
+            let c = if v6 { Endpoint::v6(1 + r.below(200) as u16, 1024 + r.below(60000) as u16) } else if r.chance(1, 12) { Endpoint::v4(*r.pick(&[8u8, 134]), *r.pick(&[0u8, 221]), r.u8(), 1 + r.below(250) as u8, 1024 + r.below(60000) as u16) } else { Endpoint::v4(*r.pick(&[10u8, 192, 172, 100]), r.u8(), r.u8(), 1 + r.below(250) as u8, 1024 + r.below(60000) as u16) };
             let s = if v6 { Endpoint::v6(0x500 + r.below(20) as u16, *r.pick(&[80u16, 443, 8080])) } else { Endpoint::v4(*r.pick(&[10u8, 203, 198]), r.u8(), r.u8(), 1 + r.below(250) as u8, *r.pick(&[80u16, 443, 8080])) };
             // one connection in five has both ends on the same address (loopback capture, hairpin NAT)
             let s = if r.chance(1, 5) { Endpoint { ip: c.ip, port: s.port } } else { s };
@@ -474,6 +474,37 @@ impl Prop for C18 {
                 Ok(())
             }
             Mode::Affinity { kind, seg, variants, base_framing, all_patch, byte_variants, .. } => {
+                // predicate for known-finding matching: a raw-IP framed IPv4 packet whose source address starts
+                // with 08 00 or 86 dd sits where an Ethernet frame has its EtherType, and every framing
+                // heuristic of the repository (parser, raw filter, dispatch hash) takes it for an Ethernet frame
+                let lookalike = match seg.src.ip {
+                    std::net::IpAddr::V4(a) => {
+                        let o = a.octets();
+                        (o[0] == 0x08 && o[1] == 0x00) || (o[0] == 0x86 && o[1] == 0xdd)
+                    }
+                    _ => false,
+                } && (*base_framing == Framing::RawIp || variants.iter().any(|v| v.2 == Framing::RawIp));
+                let r = affinity_inner(kind, seg, variants, base_framing, all_patch, byte_variants, st);
+                return r.map_err(|mut v| {
+                    if lookalike {
+                        v.key = format!("raw-ip-source-address-looks-like-ethertype:{}", v.key);
+                    }
+                    v
+                });
+            }
+        }
+    }
+
+    fn shrink(s: &Scn) -> Vec<Scn> {
+        shrink_impl(s)
+    }
+}
+
+#[allow(clippy::too_many_arguments)]
+fn affinity_inner(kind: &PoolKind, seg: &Seg, variants: &[(String, Seg, Framing)], base_framing: &Framing, all_patch: &Option<(usize, u8, u8)>, byte_variants: &[(String, usize, u8, u8)], st: &mut RunStats) -> Result<(), Violation> {
+    {
+        {
+            {
                 let patch = |mut f: Vec<u8>, p: &Option<(usize, u8, u8)>| -> Vec<u8> {
                     if let Some((off, mask, val)) = p {
                         let i = crate::tap::ip_offset(&f) + off;
@@ -541,12 +572,14 @@ impl Prop for C18 {
                 }
                 st.fault_n("header_rewrite", variants.len() as u64);
                 st.nontrivial = true;
-                Ok(())
             }
         }
     }
+    Ok(())
+}
 
-    fn shrink(s: &Scn) -> Vec<Scn> {
+fn shrink_impl(s: &Scn) -> Vec<Scn> {
+    {
         let mut out = vec![];
         match &s.mode {
             Mode::Accounting { cfg, dispatchers, schedules, iters, sched, stats_calls } => {
